@@ -155,9 +155,9 @@ def header_always_built(ctx):
     pr = ctx.cls("logging", "Log").own_method("prepare")
     V = FuncView(ctx, pr)
     bh = V.need(V.call_nodes("self.buildHeader"), "self.buildHeader() in Log.prepare")
-    from ..rules import local_condition
+    from ..rules import group_condition
     # no condition decided after the last point all paths share, and no normal exit of prepare() without it
-    ok = formula_equiv(("or", [local_condition(V, n) for n in bh]), "True") and \
+    ok = formula_equiv(group_condition(V, bh), "True") and \
         V.cfg.exit.id not in V.cfg.reachable(V.cfg.entry.id, removed_nodes=[n.id for n in bh], labels_block=("exc",))
     ctx.check(ok, "T2-header", bh[0].ast, "Log.prepare builds the header on every path",
               "a Log that reuses an existing file (second life on the same directory) does not write its header now - but it still "
